@@ -84,7 +84,10 @@ func (v *Vue) evalInclude(ctx VueContext, node *html.Node, vars map[string]any, 
 	// tag's variables and evaluates its children. Its result is evaluated output - evaluating it
 	// a second time would interpolate the substituted values as if they were template source.
 	// What follows the tag is evaluated like the rest of any template.
-	if len(compDom) > 0 && compDom[0].Type == html.ElementNode && compDom[0].Data == "template" {
+	// (A <template> that loops or is conditional - v-for, v-if and its v-else partners - is not
+	// such a root tag: it is evaluated like it would be anywhere else in a template.)
+	if len(compDom) > 0 && compDom[0].Type == html.ElementNode && compDom[0].Data == "template" &&
+		!helpers.HasAttr(compDom[0], "v-for") && !helpers.HasAttr(compDom[0], "v-if") {
 		// v-once on that tag: like on any other element, only its first instance is emitted
 		if helpers.HasAttr(compDom[0], "v-once") {
 			vSeenID := helpers.GetAttr(compDom[0], "v-once-id")
